@@ -37,16 +37,23 @@ def sweeps_for_crop(name, dense=False, rnd=None):
     drs = frange(-0.2 * taw, 1.2 * taw, n)
     et0s = [0.1, 1.0, 3.0, 5.0, 8.0, 14.0, 20.0] if dense else [0.1, 5.0, 20.0, rnd.choice([1.0, 3.0, 8.0, 14.0])]
     names = ["exp", "sto", "sen", "pol", "sto_lin"]
-    for et0 in et0s:
+    # both settings of the ET adjustment of the thresholds (the crop's own and the other one); every sweep is evaluated a second time in the
+    # REVERSE order of arguments: a response FUNCTION gives the same value for the same arguments whatever was evaluated before ("again")
+    for et0, etadj in [(e, a) for e in et0s for a in sorted({int(c.ETadj), 0}, reverse=True)]:
         for tes in (0, 3):
             cols = [[] for _ in range(5)]
             for dr in drs:
-                r = water_stress(c.p_up, c.p_lo, c.ETadj, c.beta, c.fshape_w, tes, dr, taw, et0, True)
+                r = water_stress(c.p_up, c.p_lo, etadj, c.beta, c.fshape_w, tes, dr, taw, et0, True)
                 for k in range(5):
                     cols[k].append(float(r[k]))
+            back = [[] for _ in range(5)]
+            for dr in reversed(drs):
+                r = water_stress(c.p_up, c.p_lo, etadj, c.beta, c.fshape_w, tes, dr, taw, et0, True)
+                for k in range(5):
+                    back[k].append(float(r[k]))
             for k in range(5):
                 s = {"f": "water_stress." + names[k], "crop": name, "kind": "mono", "dir": "noninc", "lo": to_num(0), "hi": to_num(1),
-                     "pts": pts(drs, cols[k]), "x": {"et0": to_num(et0), "tEarlySen": tes},
+                     "pts": pts(drs, cols[k]), "x": {"et0": to_num(et0), "tEarlySen": tes, "etAdj": etadj}, "again": [to_num(v) for v in reversed(back[k])],
                      "bounds": [{"below": to_num(0.0), "value": to_num(1.0)}, {"above": to_num(taw), "value": to_num(0.0)}]}
                 if names[k] == "pol":
                     pup, plo = min(max(float(c.p_up[3]), 0), 1), min(max(float(c.p_lo[3]), 0), 1)
